@@ -210,6 +210,9 @@ def _loss_factory(kind, rng):
     if kind == "SquaredL2Loss(Diag)":
         d = cc._arr(rng, (n,), np.float64) + 3.0
         return (lambda s: loss.SquaredL2Loss(y=y, A=linop.Diagonal(d), scale=s)), x
+    if kind == "SquaredL2Loss(Matrix)":
+        M = cc._arr(rng, (n, n), np.float64) + 3.0 * jnp.eye(n)
+        return (lambda s: loss.SquaredL2Loss(y=y, A=linop.MatrixOperator(M), scale=s, prox_kwargs={"maxiter": 300, "tol": 1e-13})), x
     if kind == "PoissonLoss":
         yp = jnp.abs(y) + 1.0
         return (lambda s: loss.PoissonLoss(y=yp, scale=s)), jnp.abs(x) + 0.5
@@ -236,11 +239,34 @@ def _loss_run_impl(kind, ops, seed):
             objs.append(new)
         else:
             objs[o["i"]].set_scale(o["s"])
+        # interleaved use (part of the history): every object that exists is evaluated after every operation, so that
+        # anything computed lazily on first use exists BEFORE later copies / set_scale calls
+        for ob in objs:
+            try:
+                ob(x)
+                if ob.has_prox and float(ob.scale) > 0:
+                    ob.prox(x, 0.25)
+            except Exception:  # noqa: BLE001  (history calls are not the subject)
+                pass
     base = mk(1.0)
     b = float(base(x))
     g = np.asarray(base.grad(x))
+    # proximal maps (where the class has one and the scale is positive): each object against a NEW loss of the same scale.
+    # Evaluated twice, first for the most recently created objects: state shared between an object and its copies
+    # (anything cached on first use and carried along by the shallow copy) shows as a difference.
+    prox_bad = None
+    if base.has_prox:
+        for j in list(reversed(range(len(objs)))) + list(range(len(objs))):
+            o = objs[j]
+            if not (float(o.scale) > 0):
+                continue
+            got = np.asarray(o.prox(x, 0.5))
+            want = np.asarray(mk(float(o.scale)).prox(x, 0.5))
+            if not common.allclose(got, want, rtol=1e-7):
+                prox_bad = {"object": j, "scale": float(o.scale), "prox": got.tolist(), "fresh_prox": want.tolist()}
+                break
     return {"scales": [float(o.scale) for o in objs], "vals": [float(o(x)) for o in objs], "grads": [np.asarray(o.grad(x)) for o in objs],
-            "base": b, "gbase": g, "orig_unchanged": snaps_ok, "x": x, "objs": objs, "mk": mk}
+            "base": b, "gbase": g, "orig_unchanged": snaps_ok, "x": x, "objs": objs, "mk": mk, "prox_bad": prox_bad}
 
 
 def _oracle_loss(case):
@@ -251,6 +277,8 @@ def _oracle_loss(case):
         if not common.close(float(o(r["x"])), float(fresh(r["x"])), 8) or not common.allclose(np.asarray(o.grad(r["x"])), np.asarray(fresh.grad(r["x"]))):
             return {"case": case, "object": j, "scale": float(o.scale), "grad": np.asarray(o.grad(r["x"])).tolist(),
                     "fresh_grad": np.asarray(fresh.grad(r["x"])).tolist(), "what": "rescaled loss differs from a fresh loss with the same scale"}
+    if r["prox_bad"] is not None:
+        return {"case": case, **r["prox_bad"], "what": "proximal map of a rescaled loss differs from a fresh loss with the same scale"}
     if not r["orig_unchanged"]:
         return {"case": case, "what": "rescaling mutated the original loss"}
     return None
@@ -306,14 +334,17 @@ def _loss_case(ctx, model, case):
         if not common.allclose(r["grads"][j], want):
             ctx.disagree("cache.loss.grad", {**case, "object": j}, r["grads"][j].tolist(), want.tolist(), oracle=_oracle_loss)
             return
+    if r["prox_bad"] is not None:
+        ctx.disagree("cache.loss.prox", {**case, "object": r["prox_bad"]["object"]}, r["prox_bad"]["prox"], r["prox_bad"]["fresh_prox"], oracle=_oracle_loss)
+        return
     if not r["orig_unchanged"]:
         ctx.disagree("cache.loss.mutation", case, "original changed by rescaling", "unchanged", oracle=_oracle_loss)
 
 
 def _corr_loss(ctx, model):
-    kinds = ["SquaredL2Loss(I)", "SquaredL2Loss(Diag)", "PoissonLoss", "SquaredL2AbsLoss"]
-    for i in range(ctx.n(16, 60)):
-        _loss_case(ctx, model, {"kind": "loss", "cls": kinds[i % 4], "ops": _gen_loss_ops(ctx.rng), "seed": int(ctx.rng.integers(0, 10**6))})
+    kinds = ["SquaredL2Loss(I)", "SquaredL2Loss(Diag)", "PoissonLoss", "SquaredL2AbsLoss", "SquaredL2Loss(Matrix)"]
+    for i in range(ctx.n(20, 75)):
+        _loss_case(ctx, model, {"kind": "loss", "cls": kinds[i % 5], "ops": _gen_loss_ops(ctx.rng), "seed": int(ctx.rng.integers(0, 10**6))})
 
 
 # ==============================================================================================
@@ -1172,7 +1203,7 @@ def search(ctx, model, why):
         if r is not None:
             return r
     for _ in range(ctx.n(4, 25)):
-        c = {"kind": "loss", "cls": "SquaredL2Loss(Diag)", "ops": _gen_loss_ops(ctx.rng), "seed": int(ctx.rng.integers(0, 10**6))}
+        c = {"kind": "loss", "cls": ["SquaredL2Loss(Diag)", "SquaredL2Loss(Matrix)"][int(ctx.rng.integers(0, 2))], "ops": _gen_loss_ops(ctx.rng), "seed": int(ctx.rng.integers(0, 10**6))}
         ctx.count("search:loss")
         r = _oracle_loss(c)
         if r is not None:
